@@ -81,7 +81,8 @@ def summarize(case, res, viols, mod):
         'steps': sim.step if sim else 0,
         'vtime': sim.vtime() if sim else 0.0,
         'stats': stats,
-        'sig': sim.sig.hexdigest() if sim else '',
+        'sig': (mod.case_digest(case, res) if hasattr(mod, 'case_digest')
+                else (sim.sig.hexdigest() if sim else '')),
         'concurrent_steps': sim.concurrent_steps if sim else 0,
         'wall': res.wall,
         'quiescent': res.quiescent_reason,
